@@ -278,9 +278,13 @@ func checkPublish(c *Ctx, rn func(string) string) {
 	c.Floor(rn("R3"), "accepted-answer edges in publishTransaction", nAcc, 2)
 	// the already-known/confirmed classes are sentinel tests too
 	nSent := 0
-	for _, b := range pub.Blocks {
-		for si := range b.Succs {
-			if s, isTrue, ok := errIsSentinel(b, si); ok && isTrue && strings.HasPrefix(s, "chain.") {
+	for _, ci := range callsOf(pub) {
+		call, ok := ci.(*ssa.Call)
+		if !ok {
+			continue
+		}
+		if g := call.Call.StaticCallee(); g != nil && g.Pkg != nil && g.Pkg.Pkg.Path() == "errors" && g.Name() == "Is" && len(call.Call.Args) == 2 {
+			if strings.HasPrefix(valueDesc(call.Call.Args[1]), "chain.") {
 				nSent++
 			}
 		}
@@ -552,12 +556,42 @@ func checkBackendErrorIsTheHaystack(c *Ctx, rule string) {
 		c.Unresolved(rule, "chain.matchErrStr")
 		return
 	}
-	n := 0
+	// the matcher, and wrappers that hand their own error parameter on as the searched text (a helper that tries every
+	// key of one table): callee -> position of the searched error among its arguments
+	matchers := map[*ssa.Function]int{m: 0}
 	for _, fn := range p.FuncsIn("chain") {
+		if fn == m || fn.Parent() != nil {
+			continue
+		}
 		for _, ci := range callsOf(fn) {
 			call, ok := ci.(*ssa.Call)
 			if !ok || !p.isCallTo(call, m) || len(call.Call.Args) != 2 {
 				continue
+			}
+			if prm, isPrm := stripConv(call.Call.Args[0]).(*ssa.Parameter); isPrm && prm.Parent() == fn && isErrorType(prm.Type()) && fn.Object() != nil && !fn.Object().Exported() {
+				matchers[fn] = paramIndex(fn, prm)
+			}
+		}
+	}
+	n := 0
+	for _, fn := range p.FuncsIn("chain") {
+		for _, ci := range callsOf(fn) {
+			call, ok := ci.(*ssa.Call)
+			if !ok {
+				continue
+			}
+			hayIdx, isM := matchers[call.Call.StaticCallee()]
+			if !isM || hayIdx >= len(call.Call.Args) || len(call.Call.Args) < 2 {
+				continue
+			}
+			if _, selfWrapper := matchers[outermost(fn)]; selfWrapper && outermost(fn) != m {
+				// inside a wrapper the searched text is its own parameter by construction (that is what made it one)
+				n++
+				continue
+			}
+			patIdx := 1 - hayIdx
+			if hayIdx > 1 {
+				patIdx = 0
 			}
 			top := outermost(fn)
 			var errPrm *ssa.Parameter
@@ -570,13 +604,13 @@ func checkBackendErrorIsTheHaystack(c *Ctx, rule string) {
 				continue
 			}
 			n++
-			hay := stripConv(call.Call.Args[0])
+			hay := stripConv(call.Call.Args[hayIdx])
 			if fv, isFV := hay.(*ssa.FreeVar); isFV {
 				hay = freeVarRoot(fv)
 			}
 			okHay := hay == ssa.Value(errPrm)
 			okPat := true
-			for _, o := range (&Slicer{P: p}).Origins(call.Call.Args[1]) {
+			for _, o := range (&Slicer{P: p}).Origins(call.Call.Args[patIdx]) {
 				if o == ssa.Value(errPrm) {
 					okPat = false
 				}
